@@ -29,6 +29,7 @@ import (
 	"runtime"
 	"runtime/debug"
 	"sort"
+	"strconv"
 	"strings"
 	"testing"
 	"time"
@@ -80,6 +81,8 @@ type LimPlan struct {
 }
 
 const limMaxOpsPerKey = 40
+const limMaxStateSet = 256
+const limStepBudget = 20000
 
 func init() {
 	registerScenario(&scenario{name: "limiter", gen: genLimiter, load: func(b []byte) (any, error) {
@@ -303,6 +306,7 @@ type limOp struct {
 	startStep, endStep int
 	startMs, endMs     int64 // endMs is endless for a call whose effect may come at any later time
 	retMs              int64 // when the call returned (-1 = never)
+	capR               int64 // the largest limit any call on this key used: counts at or above it are indistinguishable (Remaining 0)
 	known              bool  // returned without error: the result is judged
 	res                Result
 	err                string
@@ -340,24 +344,43 @@ type limWin struct{ id, r, a int64 }
 
 func limPast(s string) []limWin {
 	var ws []limWin
-	for _, f := range strings.Split(s, ";") {
-		if f == "" {
-			continue
+	var w limWin
+	f, v := 0, int64(0)
+	for i := 0; i < len(s); i++ {
+		switch c := s[i]; c {
+		case ':', ';':
+			switch f {
+			case 0:
+				w.id = v
+			case 1:
+				w.r = v
+			default:
+				w.a = v
+			}
+			f, v = f+1, 0
+			if c == ';' {
+				ws = append(ws, w)
+				f = 0
+			}
+		default:
+			v = v*10 + int64(c-'0')
 		}
-		var w limWin
-		fmt.Sscanf(f, "%d:%d:%d", &w.id, &w.r, &w.a)
-		ws = append(ws, w)
 	}
 	return ws
 }
 
 func limPastString(ws []limWin) string {
 	sort.Slice(ws, func(i, j int) bool { return ws[i].id < ws[j].id })
-	var sb strings.Builder
+	b := make([]byte, 0, 24*len(ws))
 	for _, w := range ws {
-		fmt.Fprintf(&sb, "%d:%d:%d;", w.id, w.r, w.a)
+		b = strconv.AppendInt(b, w.id, 10)
+		b = append(b, ':')
+		b = strconv.AppendInt(b, w.r, 10)
+		b = append(b, ':')
+		b = strconv.AppendInt(b, w.a, 10)
+		b = append(b, ';')
 	}
-	return sb.String()
+	return string(b)
 }
 
 // leave files the current window of st under Past and takes window id out of it: the counters to go on from.
@@ -384,22 +407,30 @@ const limEndless = int64(1) << 60
 func limModelStep(st limState, o *limOp, lateRestart bool) []limState {
 	var next []limState
 	n := o.n
+	// every count >= the largest limit in use on the key reports Remaining 0 and stays so until the window changes:
+	// such counts are one state (keeps the sets of states small when many requests are denied)
+	sat := func(r int64) int64 {
+		if o.capR > 0 && r > o.capR {
+			return o.capR
+		}
+		return r
+	}
 	if !o.known {
 		// the call failed or never returned: it may not have been counted at all, may have been counted in the current
 		// window or in one left earlier, or may have entered a window of its own; its caller was told nothing, so
 		// nothing was admitted
 		next = append(next, st)
 		if n > 0 && st.W != 0 && (st.W < 0 || o.startMs <= st.W) {
-			next = append(next, limState{st.W, st.R + n, st.A, st.Past})
+			next = append(next, limState{st.W, sat(st.R + n), st.A, st.Past})
 		}
 		for _, w := range limPast(st.Past) {
 			if o.startMs <= w.id {
 				past, r, a, _ := st.leave(w.id)
-				next = append(next, limState{w.id, r + n, a, past})
+				next = append(next, limState{w.id, sat(r + n), a, past})
 			}
 		}
 		past, _, _, _ := st.leave(-1)
-		next = append(next, limState{-1, n, 0, past})
+		next = append(next, limState{-1, sat(n), 0, past})
 		return next
 	}
 	L, reset := o.limit, o.res.ResetAtMs
@@ -414,7 +445,7 @@ func limModelStep(st limState, o *limOp, lateRestart bool) []limState {
 				return
 			}
 		}
-		next = append(next, limState{reset, R, A, past})
+		next = append(next, limState{reset, sat(R), A, past})
 	}
 	late := lateRestart && o.endMs > reset
 	// counted in the window counted in last: possible only if the call had begun when that window ended
@@ -441,6 +472,8 @@ type limBudget struct {
 	exceeded bool
 }
 
+var limStepsUsed int // model steps spent by the last run's checks (statistics)
+
 func limPorcupineModel(b *limBudget, lateRestart bool) porcupine.Model {
 	nm := porcupine.NondeterministicModel{
 		Init: func() []interface{} { return []interface{}{limState{}} },
@@ -450,6 +483,7 @@ func limPorcupineModel(b *limBudget, lateRestart bool) porcupine.Model {
 				return nil
 			}
 			b.left--
+			limStepsUsed++
 			var out []interface{}
 			for _, s := range limModelStep(state.(limState), input.(*limOp), lateRestart) {
 				out = append(out, s)
@@ -468,7 +502,22 @@ func limPorcupineModel(b *limBudget, lateRestart bool) porcupine.Model {
 		DescribeOperation: func(in, _ interface{}) string { return in.(*limOp).String() },
 		DescribeState:     func(s interface{}) string { return fmt.Sprintf("%+v", s.(limState)) },
 	}
-	return nm.ToModel()
+	m := nm.ToModel()
+	// ToModel works on sets of states; many calls with unknown results make the sets (and their quadratic merging) large:
+	// such a history is given up as undecided
+	inner := m.StepContext
+	m.StepContext = func(ctx context.Context, state, input, output interface{}) (bool, interface{}) {
+		ok, ns := inner(ctx, state, input, output)
+		if ok && len(ns.([]interface{})) > limMaxStateSet {
+			b.exceeded = true
+			return false, nil
+		}
+		return ok, ns
+	}
+	m.Step = func(state, input, output interface{}) (bool, interface{}) {
+		return m.StepContext(context.Background(), state, input, output)
+	}
+	return m
 }
 
 func limHistory(ops []*limOp) []porcupine.Operation {
@@ -529,6 +578,8 @@ func limCheckHistory(ops []*limOp, budget int, lateRestart, explain bool) (verdi
 
 func checkLimiter(e *simEnv, p *LimPlan) {
 	out := e.out
+	limStepsUsed = 0
+	defer func() { out.Stats["oracle.model_steps"] = limStepsUsed }()
 	byKey := map[string][]*limOp{}
 	var keys []string
 	users := map[string]map[int]bool{}
@@ -578,6 +629,15 @@ func checkLimiter(e *simEnv, p *LimPlan) {
 		}
 	}
 	sort.Strings(keys)
+	for _, key := range keys {
+		capR := int64(0)
+		for _, o := range byKey[key] {
+			capR = max(capR, o.limit)
+		}
+		for _, o := range byKey[key] {
+			o.capR = capR
+		}
+	}
 	for _, ex := range e.sim.W.Log {
 		if ex.Reply.IsErr() && strings.HasPrefix(ex.Reply.S, "NOSCRIPT") {
 			out.probe("noscript-fallback-to-eval")
@@ -647,7 +707,7 @@ func checkLimiter(e *simEnv, p *LimPlan) {
 			out.notJudged("history-too-long")
 		} else {
 			var stuck []*limOp
-			verdict, stuck = limCheckHistory(sorted, 300000, false, true)
+			verdict, stuck = limCheckHistory(sorted, limStepBudget, false, true)
 			switch verdict {
 			case "unknown":
 				out.notJudged("linearizability-undecided")
@@ -668,7 +728,7 @@ func checkLimiter(e *simEnv, p *LimPlan) {
 				// name the violation: is it explained by a window whose counters were at zero again for a call that was
 				// answered after that window had ended?
 				rule, what := "not-a-fixed-window-counter", "no sequential order of the calls that respects real time explains the results"
-				if v2, _ := limCheckHistory(sorted, 300000, true, false); v2 == "ok" {
+				if v2, _ := limCheckHistory(sorted, 10*limStepBudget, true, false); v2 == "ok" {
 					rule, what = "window-restarted-for-late-call", "the results are explained only if a window (same ResetAtMs) started again from zero for a call answered after that window had ended"
 				} else if un := limUnattributed(e, key, ops); len(un) > 0 {
 					rule, what = "request-nobody-made-was-counted", "the server counted requests on this key that no caller made with these arguments ("+strings.Join(un, ", ")+"), and no sequential order of the calls explains the results"
